@@ -86,7 +86,7 @@ CHECKS.update({
         text="PARTIAL by proof, completed by search. Theorems (ordered field, Props/C01.lean): projgr_zero_iff_kkt (the stop-test quantity vanishes "
              "exactly at the first-order points), d0_zero_iff_kkt and nonstationary_moves (the generalized-Cauchy start direction of the model of "
              "cauchy.py is non-zero at every non-stationary point: variables resting on a bound with the gradient outward do not block the others), "
-             "moving_breakpoint_pos, d0_descent_term; nonstationary_cauchy_decrease and nonstationary_descent (Props/C01Descent: at a non-stationary iterate the model value at the generalized Cauchy point is strictly negative and, after the truncated Newton step on the free variables, the search direction satisfies g.d < 0 — the chain C01 -> C08 gcp_model_neg -> C09 direction_descent, exact arithmetic; model_iteration_descent states it for the two executable models chained as the driver chains the routines); with C04 report_truthful and C05 result_coherent the PGTOL message is truthful. That the "
+             "moving_breakpoint_pos, d0_descent_term; nonstationary_cauchy_decrease and nonstationary_descent (Props/C01Descent: at a non-stationary iterate the model value at the generalized Cauchy point is strictly negative and, after the truncated Newton step on the free variables, the search direction satisfies g.d < 0 — the chain C01 -> C08 gcp_model_neg -> C09 direction_descent, exact arithmetic; model_iteration_descent states it for the two executable models chained as the driver chains the routines); complete_iteration_descent_curv / descent_from_memory_invariant (Props/C01Curv) state it for the COMPLETE model with no hypothesis on solves, on the middle matrix or on definiteness — the memory invariants (vectors of the length of x, consecutive pairs past the curvature test with eps >= 0), feasibility, non-stationarity and an inactive floor on f'' suffice, because the kernels' matrix is the BFGS matrix of the stored pairs (C10 kernel_matrix_is_bfgs) and the model's dense solves are exact (Props/C09Solve); run_direction_descent (Props/C01Run) lifts it to the run: those invariants are established by fresh_dinv and carried by iterBody_dinv through ANY pass of the loop body (accepted or rejected pair, failed line search with memory reset, stop tests, callbacks), so at every loop-head state a fresh run of the complete model reaches (no scaler, no update function) the direction handed to the line search satisfies g.d < 0 whenever the loop goes on and the floor is inactive; with C04 report_truthful and C05 result_coherent the PGTOL message is truthful. That the "
              "iteration reaches such a point on every generated convex problem (global convergence through SciPy's line search in floating point) is "
              "not a theorem: it is decided on real runs — and the COMPLETE executable model (Model/Kernels.lean: compact matrices from the memory snapshot, cauchy, subspaceMin, the DCSRCH model, composed under the driver model; no recorded answers) is executed natively by the Lean driver on the package's benchmark functions and compared with the package (iterates, iteration counts, messages), which ties the chain of models the theorems are about to the code end to end — (600 quick / 8000 thorough convex problems incl. starts constructed on bounds with the gradient "
              "inward/outward), each replayed bit for bit through the Lean driver model, projected gradient recomputed from the harness's closures.",
